@@ -24,21 +24,39 @@ type cuckooHandle interface {
 
 type cuckooMem struct{ f *gostatix.CuckooFilter }
 
-func (h cuckooMem) Insert(d []byte, ds bool) bool { return h.f.Insert(d, ds) }
-func (h cuckooMem) Lookup(d []byte) (bool, error) { return h.f.Lookup(d), nil }
-func (h cuckooMem) Remove(d []byte) (bool, error) { return h.f.Remove(d), nil }
-func (h cuckooMem) Length() uint64                { return h.f.Length() }
-func (h cuckooMem) Export() ([]byte, error)       { return h.f.Export() }
-func (h cuckooMem) tag() string                   { return "cuckoo.mem" }
+func (h cuckooMem) Insert(d []byte, ds bool) (ok bool) {
+	viaScratch(d, func(a []byte) { ok = h.f.Insert(a, ds) })
+	return
+}
+func (h cuckooMem) Lookup(d []byte) (ok bool, err error) {
+	viaScratch(d, func(a []byte) { ok = h.f.Lookup(a) })
+	return
+}
+func (h cuckooMem) Remove(d []byte) (ok bool, err error) {
+	viaScratch(d, func(a []byte) { ok = h.f.Remove(a) })
+	return
+}
+func (h cuckooMem) Length() uint64          { return h.f.Length() }
+func (h cuckooMem) Export() ([]byte, error) { return h.f.Export() }
+func (h cuckooMem) tag() string             { return "cuckoo.mem" }
 
 type cuckooRedis struct{ f *gostatix.CuckooFilterRedis }
 
-func (h cuckooRedis) Insert(d []byte, ds bool) bool { return h.f.Insert(d, ds) }
-func (h cuckooRedis) Lookup(d []byte) (bool, error) { return h.f.Lookup(d) }
-func (h cuckooRedis) Remove(d []byte) (bool, error) { return h.f.Remove(d) }
-func (h cuckooRedis) Length() uint64                { return h.f.Length() }
-func (h cuckooRedis) Export() ([]byte, error)       { return h.f.Export() }
-func (h cuckooRedis) tag() string                   { return "cuckoo.redis" }
+func (h cuckooRedis) Insert(d []byte, ds bool) (ok bool) {
+	viaScratch(d, func(a []byte) { ok = h.f.Insert(a, ds) })
+	return
+}
+func (h cuckooRedis) Lookup(d []byte) (ok bool, err error) {
+	viaScratch(d, func(a []byte) { ok, err = h.f.Lookup(a) })
+	return
+}
+func (h cuckooRedis) Remove(d []byte) (ok bool, err error) {
+	viaScratch(d, func(a []byte) { ok, err = h.f.Remove(a) })
+	return
+}
+func (h cuckooRedis) Length() uint64          { return h.f.Length() }
+func (h cuckooRedis) Export() ([]byte, error) { return h.f.Export() }
+func (h cuckooRedis) tag() string             { return "cuckoo.redis" }
 
 type cuckooCfg struct {
 	n, b, fpl, retries uint64
